@@ -70,6 +70,16 @@ def special_models():
     ed.append((4.0, 10.0, 2, 4, b""))
     m.edges = sorted(ed, key=lambda e: (m.nodes[e[2]][1], e[2], e[3], e[0]))
     out.append(m)
+    # a leading edge-free gap that reaches past L/2 (what keep_intervals leaves when only the right-hand end is kept): a
+    # seek from the null state into the gap takes the right-to-left route and finds no edge starting before the target
+    m = RowModel(10.0)
+    m.nodes = [(1, 0.0, NULL, NULL, b""), (1, 0.0, NULL, NULL, b""), (1, 0.0, NULL, NULL, b""), (0, 1.0, NULL, NULL, b""),
+               (0, 2.0, NULL, NULL, b"")]
+    m.edges = [(6.0, 8.0, 3, 0, b""), (6.0, 10.0, 3, 1, b""), (8.0, 10.0, 4, 0, b""), (6.0, 10.0, 4, 2, b""), (6.0, 10.0, 4, 3, b"")]
+    m.edges.sort(key=lambda e: (m.nodes[e[2]][1], e[2], e[3], e[0]))
+    m.sites = [(5.5, "A", b""), (7.0, "A", b"")]
+    m.mutations = [(1, 3, "T", NULL, None, b"")]
+    out.append(m)
     # whole tables empty: no nodes at all; samples without any edge (one edge-free tree each)
     out.extend(X.empty_models())
     return out
